@@ -38,6 +38,53 @@ Proof.
     apply (entry_accepted_sound _ _ _ _ H3 _ H4).
 Qed.
 
+(* ---- C17, results: on a zero receiver every result stays the zero value ----
+   The entry points are analysed in their result-tracking translation
+   (ir_entries_res): an ERes event marks every place where a result may become
+   non-zero - a return of, or an assignment to a named result from, anything
+   that is not syntactically the zero value (or the value receiver itself),
+   "return f(...)" / "results = f(...)" of a package function continuing in
+   that function's result-tracking body.  The documented exceptions: the two
+   initialisers, the error-returning Valid / IsEqual, the truthful IsZero /
+   IsEmpty, and the sentinel strings of ID / Kind / Addr. *)
+Definition is_res (e : ev) : bool := match e with ERes => true | _ => false end.
+Definition bad_zero_res (other : bool) (e : ev) : bool := is_res e.
+Definition zero_res_exceptions : list (N * bytes) :=
+  [(rc_CondPtr, B "Init"); (rc_StackPtr, B "Marshal");
+   (rc_Stack, B "Valid"); (rc_Cond, B "Valid"); (rc_Stack, B "IsEqual"); (rc_Cond, B "IsEqual");
+   (rc_Stack, B "IsZero"); (rc_Cond, B "IsZero"); (rc_Stack, B "IsEmpty");
+   (rc_Stack, B "ID"); (rc_Stack, B "Kind"); (rc_Stack, B "Addr")].
+Definition U_zero_res := Eval vm_compute in refine 80 ir_table bad_zero_res env_zero [].
+
+Definition zero_res_check : bool :=
+  post_fixpoint ir_table bad_zero_res env_zero U_zero_res &&
+  forallb (fun e => negb (is_inst_class e) || named zero_res_exceptions e || entry_accepted ir_table U_zero_res e) ir_entries_res.
+
+Lemma zero_results_static :
+  zero_res_check = true ->
+  forall e, In e ir_entries_res -> is_inst_class e = true -> named zero_res_exceptions e = false ->
+            entry_ok ir_table bad_zero_res env_zero e.
+Proof.
+  unfold zero_res_check. intros H. apply andb_true_iff in H as [H1 H2]. rewrite forallb_forall in H2.
+  intros e He Hc Hn. specialize (H2 e He). rewrite Hc, Hn in H2. cbn in H2.
+  apply (entry_accepted_sound _ _ _ _ H1 _ H2).
+Qed.
+
+(* the two entry lists name the same methods, in the same order *)
+Definition same_entry_names : bool :=
+  (length ir_entries =? length ir_entries_res)%nat &&
+  forallb (fun p => bytes_eqb (en_name (fst p)) (en_name (snd p)) && (en_recv (fst p) =? en_recv (snd p))%N)
+          (combine ir_entries ir_entries_res).
+
+Fixpoint has_res (s : gstmt) : bool :=
+  match s with
+  | GSeq a b | GFinally a b => has_res a || has_res b
+  | GIf _ t e => has_res t || has_res e
+  | GLoop b => has_res b
+  | GEv ERes => true
+  | _ => false
+  end.
+
 (* ---- C09: the read-only receiver ---- *)
 Definition ro_exceptions : list (N * bytes) :=
   [(rc_Stack, B "SetReadOnly"); (rc_Stack, B "ReadOnly"); (rc_Cond, B "SetReadOnly");
